@@ -359,3 +359,37 @@ def check_report(ctx, F):
             ctx.instance("C16.report", site, {"function": site, "loc": F.floc(fid)})
             if "getStateNames" not in names:
                 ctx.violation("C16.report", site, "%s (%s)" % (site, F.floc(fid)), "constructor does not call getStateNames()", {})
+
+
+def final(ctx):
+    """the structure report's prefix buffer is sized by the type-level REVERSE_DEPTH (levels of the hierarchy): decided by the shape witness of
+    C17 on a small family of deep / orthogonal shapes, under the structure-report configuration (static_asserts, clang -fsyntax-only)"""
+    import os, shutil
+    from .. import shapes as S
+    from .. import facts as factsmod
+    fam = [r for r in S.enumerate_shapes(6)][::7][:60] + S.mixed_shapes()[:24:3]
+    gen = os.path.join(factsmod.CACHE, "c16wit", str(os.getpid()))
+    os.makedirs(gen, exist_ok=True)
+    try:
+        body = []
+        for i, root in enumerate(fam):
+            txt, ex = S.emit_shape(i, root, ("STRUCTURE_REPORT",), strategy_seed=i)
+            body.append(txt)
+        path = os.path.join(gen, "c16_reverse_depth.cpp")
+        with open(path, "w") as f:
+            f.write("// generated - compiled with -fsyntax-only, never linked or run\n#include <hfsm2/machine.hpp>\n" + "\n".join(body) + "\n")
+        r = S.compile_unit(path, factsmod.CONFIGS["report"])
+        fails, other = S.parse_failures(r if isinstance(r, str) else r[1] if isinstance(r, tuple) else str(r))
+        if other:
+            raise AnalysisBroken("structure-report shape witness does not compile: %s" % other[0])
+        bad = [x for x in fails if "REVERSE_DEPTH" in x["assertion"]]
+        site = "Info::REVERSE_DEPTH"
+        ctx.instance("C16.report", site, {"shapes": len(fam), "assertion": "Apex::REVERSE_DEPTH == levels of the hierarchy (sizes R_::Prefix)"})
+        if bad:
+            sm = sorted(bad, key=lambda x: len(x["shape"]))[0]
+            ctx.violation("C16.report", site, "Info::REVERSE_DEPTH (structure/forward.hpp)",
+                          "%d of %d shapes publish a wrong REVERSE_DEPTH (smallest: %s - %s): R_::Prefix is sized from it and getStateNames() writes "
+                          "one prefix character per level" % (len(set(x["shape_id"] for x in bad)), len(fam), sm["shape"], sm["assertion"]), {})
+    finally:
+        shutil.rmtree(gen, ignore_errors=True)
+
